@@ -1224,14 +1224,14 @@ def gen_cases(rng, tier):
             cases.append({"kind": "fn" if sub2.random() < 0.9 else "rt", "flows": flows, "history": g_history(sub2, flows, mode), "seed": sub2.randrange(1 << 30)})
     # conditionals inside loops, every nesting depth, both condition values while the loop runs
     sub5 = random.Random(rng.randrange(1 << 30))
-    for _ in range(45 if tier == "quick" else 900):
+    for _ in range(45 if tier == "quick" else 450):
         flows = g_ifwhile_program(sub5, tier)
         for mode in ("follow", "follow", "leave"):
             cases.append({"kind": "fn" if sub5.random() < 0.88 else "rt", "flows": flows, "history": g_history(sub5, flows, mode), "seed": sub5.randrange(1 << 30)})
         cases.append({"kind": "fn", "flows": flows, "history": g_reentry_history(sub5, flows), "seed": sub5.randrange(1 << 30)})
     # the second use of a subflow whose behaviour depends on the context
     sub6 = random.Random(rng.randrange(1 << 30))
-    for _ in range(40 if tier == "quick" else 800):
+    for _ in range(40 if tier == "quick" else 350):
         flows = g_subcall_program(sub6, tier)
         for mode in ("follow", "follow", "leave"):
             cases.append({"kind": "fn" if sub6.random() < 0.88 else "rt", "flows": flows, "history": g_history(sub6, flows, mode), "seed": sub6.randrange(1 << 30)})
